@@ -1511,8 +1511,20 @@ func main() {
 		for k := 0; k < nM; k++ {
 			cs := Case{Kind: "M", Term: hx.Pick(r, []string{"mux", "app", "app"}), Stack: mStacks[(k+int(a.Seed))%len(mStacks)]}
 			n := r.Range(1, 12)
+			cs.Wire = r.Chance(1, 3)
 			for j := 0; j < n; j++ {
-				cs.MH = append(cs.MH, genMReq(r))
+				q := genMReq(r)
+				if cs.Wire && r.Chance(1, 3) {
+					q.Mode = "H" // informational response first: only a real server handles it like production
+					st.Count("M-early-hints(1xx)")
+				}
+				if cs.Wire && (q.Status == 204 || q.Status == 301) && q.Mode != "Q" && q.Mode != "O" {
+					q.Status = 200 // the client follows redirects / net/http drops bodies on 204: not this kind's subject
+				}
+				cs.MH = append(cs.MH, q)
+			}
+			if cs.Wire {
+				st.Count("M-histories-real-server")
 			}
 			st.Count("M-histories")
 			st.Count("M-stack:" + strings.Join(cs.Stack, ">") + ">" + cs.Term)
